@@ -1,5 +1,7 @@
-(* The statements of the chain theorems (pinned here; proved in ChainProofs*.v; restated in
-   Properties/C04.v, C18.v, C07.v).  No proofs in this file. *)
+(* The statements of the chain theorems (pinned here; proved in ChainProofs.v (cascade), ChainCtx.v
+   (trace, deadline), ChainWire.v (wire), ChainFuel.v (poll fuel; stmt_chain_fuel refuted),
+   ChainRounds5.v (rounds); restated in Properties/C04.v, C07.v, C14.v, C18.v).  No proofs in this
+   file. *)
 From Coq Require Import List Bool Arith NArith.
 Import ListNotations.
 From TarpcV Require Import Base Transport Chain.
